@@ -2,12 +2,13 @@
 CONSTANTS
   N = 4
   NI = 3
+  NK = 2
   MaxClock = 12
   Retention = 2
   T = 2
   MaxCas = 100000
   MaxFaults = 100000
-  LiveStates = {"ACTIVE", "LEAVING"}
+  LiveStates = {"ACTIVE", "LEAVING", "PENDING"}
   WatchNodes = {1, 2, 3, 4}
   HoldNodes = {1, 2, 3, 4}
   AllowRestart = TRUE
@@ -17,6 +18,7 @@ CONSTANTS
   GateNodes = {1, 2, 3, 4}
   InboxCap = 2
   VersionTest = TRUE
+  KeyTest = TRUE
   MaxDel = 100000
   ObsoleteTimeout = 2
   ConsumeNet = FALSE
